@@ -50,8 +50,8 @@ pub fn plan(prop: &str, tier: Tier) -> Option<Plan> {
             "proptest-generated histories (4-byte op records: opcode via the 'lifecycle' weight table, slot, variant, extra) over a pool of <=12 handles of all kinds; the reference model (owners per allocation) and the tracking allocator + Tok registry are compared after every step and at teardown. Non-trivial: some allocation was owned through >=2 different handle kinds, the history contains >=1 conversion or borrow accessor, and the last owner released was of a different kind than the creating handle. distinct = by hash of the case bytes.".into(),
             vec!["payload classes are witnesses (Tok shapes align 1/8/16/64 and a ZST), not all types".into(), "single-threaded histories (schedules are C02)".into()],
             {
-                let mut v = sized_jobs("C01", if q { 48 } else { 160 }, if q { 6000 } else { 120_000 }, both);
-                v.extend(thin_jobs("C01", if q { 40 } else { 128 }, if q { 3000 } else { 60_000 }, both));
+                let mut v = sized_jobs("C01", if q { 48 } else { 160 }, if q { 6000 } else { 720_000 }, both);
+                v.extend(thin_jobs("C01", if q { 40 } else { 128 }, if q { 3000 } else { 360_000 }, both));
                 v
             },
         ),
@@ -60,11 +60,11 @@ pub fn plan(prop: &str, tier: Tier) -> Option<Plan> {
             "proptest-generated histories with the 'counts' weight table; after every step every count accessor of every slot (Arc::count, strong_count on Arc/OffsetArc/ArcBorrow/ArcUnion/ArcUnionBorrow, through from_ptr for raw pointers, through ArcSwap::load) is compared with the model's owner count, and counts are also read inside with_arc / with_raw_offset_arc / ArcBorrow::with_arc callbacks. Non-trivial: >=3 distinct handle kinds had their accessors evaluated at a count >=3 on an allocation that has (had) a raw-pointer or union owner, and >=1 count was read inside a callback at count >=3.".into(),
             vec!["UniqueArc has no count accessor; its count is observed after shareable()".into()],
             {
-                let mut v = sized_jobs("C04", if q { 48 } else { 160 }, if q { 6000 } else { 120_000 }, both);
-                v.extend(thin_jobs("C04", if q { 40 } else { 128 }, if q { 3000 } else { 60_000 }, both));
+                let mut v = sized_jobs("C04", if q { 48 } else { 160 }, if q { 6000 } else { 720_000 }, both);
+                v.extend(thin_jobs("C04", if q { 40 } else { 128 }, if q { 3000 } else { 360_000 }, both));
                 // assume_init is a count-neutral conversion too (shared uninitialised handles)
                 for e in eng::uninit::engines() {
-                    v.push(jobb(e, if q { 2000 } else { 40_000 }, "all"));
+                    v.push(jobb(e, if q { 2000 } else { 240_000 }, "all"));
                 }
                 v
             },
@@ -95,11 +95,11 @@ pub fn plan(prop: &str, tier: Tier) -> Option<Plan> {
             "(a) histories: 'uniqueness' weight table; every uniqueness-gated API (is_unique, get_mut, get_unique on Arc<T> / Arc<dyn> / Arc<HeaderSlice>, try_unique, UniqueArc::try_from, the in-place branch of make_mut / make_unique / OffsetArc::make_mut) must answer success iff the model has exactly one owner, and on decline return the same handle to the same allocation; (b) schedules: threads poll for uniqueness (is_unique+get_mut / get_mut / get_unique) and write through the granted reference while others read, clone, send and drop; the write must be ordered (vector clocks) after every read other threads made. Non-trivial: (a) an API evaluated at >=2 owners where a co-owner is not a plain Arc and later at 1 owner on the same allocation; (b) a poll was granted and wrote, >=2 threads accessed the value, >=1 preemption.".into(),
             vec!["schedule part: sampled schedules under the operational memory model of DESIGN.md section 4.4".into(), "deprecated Arc::write / as_mut_slice and ThinArc::with_arc_mut gates are exercised by the thin/uninit engines".into()],
             {
-                let mut v = sized_jobs("C03", if q { 48 } else { 128 }, if q { 6000 } else { 100_000 }, both);
-                v.extend(thin_jobs("C03", if q { 40 } else { 128 }, if q { 3000 } else { 60_000 }, both));
-                v.push(jobb(sched_engine("tok8", "C03", 24), if q { 50_000 } else { 2_000_000 }, "all"));
-                v.push(jobb(sched_thin_engine("8b/8", "C03", 24), if q { 15_000 } else { 500_000 }, "all"));
-                v.push(jobb(sched_engine("tok8", "C03", 24), if q { 10_000 } else { 300_000 }, "nostd"));
+                let mut v = sized_jobs("C03", if q { 48 } else { 128 }, if q { 6000 } else { 400_000 }, both);
+                v.extend(thin_jobs("C03", if q { 40 } else { 128 }, if q { 3000 } else { 240_000 }, both));
+                v.push(jobb(sched_engine("tok8", "C03", 24), if q { 50_000 } else { 8_000_000 }, "all"));
+                v.push(jobb(sched_thin_engine("8b/8", "C03", 24), if q { 15_000 } else { 2_000_000 }, "all"));
+                v.push(jobb(sched_engine("tok8", "C03", 24), if q { 10_000 } else { 1_200_000 }, "nostd"));
                 v
             },
         ),
@@ -108,9 +108,9 @@ pub fn plan(prop: &str, tier: Tier) -> Option<Plan> {
             "(a) histories: 'copy-on-write' weight table; Arc::make_mut, Arc::make_unique, OffsetArc::make_mut, Arc<HeaderSlice>::make_mut followed by a write of a fresh value, with co-owners of every kind: in place (same block, zero Clone calls) iff sole owner, else exactly one Clone, a fresh block with count 1, the old allocation loses one owner and every other handle still reads the old value (checked through every slot after every step); (b) schedules: one or more threads make_mut+write while others read/clone/drop; the write must not race with any read, and a thread that keeps holding a handle must keep reading the value it saw. Non-trivial: (a) make_mut on an allocation shared with a non-Arc handle; (b) make_mut redirected to a copy under >=1 preemption.".into(),
             vec!["schedule part: sampled schedules under the operational memory model of DESIGN.md section 4.4".into()],
             {
-                let mut v = sized_jobs("C08", if q { 48 } else { 128 }, if q { 6000 } else { 100_000 }, both);
-                v.push(jobb(sched_engine("tok8", "C08", 24), if q { 50_000 } else { 1_500_000 }, "all"));
-                v.push(jobb(sched_engine("tok8", "C08", 24), if q { 10_000 } else { 300_000 }, "nostd"));
+                let mut v = sized_jobs("C08", if q { 48 } else { 128 }, if q { 6000 } else { 500_000 }, both);
+                v.push(jobb(sched_engine("tok8", "C08", 24), if q { 50_000 } else { 7_500_000 }, "all"));
+                v.push(jobb(sched_engine("tok8", "C08", 24), if q { 10_000 } else { 1_500_000 }, "nostd"));
                 v
             },
         ),
@@ -119,14 +119,14 @@ pub fn plan(prop: &str, tier: Tier) -> Option<Plan> {
             "(a) histories: 'unwrap' weight table; try_unwrap, try_unique, UniqueArc::try_from, UniqueArc::into_inner, unwrap_or_clone with co-owners of every kind: the value is moved out (same Tok identity, destructor not run, block freed in that step) iff sole owner, otherwise the same handle comes back (same address, zero Clone calls) or, for unwrap_or_clone, a fresh clone comes back and one owner is released; (b) schedules: 2-4 threads racing try_unwrap / try_unique / try_from+into_inner / unwrap_or_clone / drop on handles to common values: afterwards every value was destroyed exactly once (a value moved out twice is a double drop, never moved out nor destroyed is a leak), the block freed once, and the winner's accesses are ordered after the others'. Non-trivial: (a) one declined and one successful unwrap in the same history; (b) >=2 threads attempted an unwrap with >=1 preemption.".into(),
             vec!["schedule part: sampled schedules under the operational memory model of DESIGN.md section 4.4".into()],
             {
-                let mut v = sized_jobs("C09", if q { 48 } else { 128 }, if q { 6000 } else { 100_000 }, both);
+                let mut v = sized_jobs("C09", if q { 48 } else { 128 }, if q { 6000 } else { 400_000 }, both);
                 // the unwrap family over the whole shape matrix (release layout of into_inner / try_unwrap)
-                v.push(job(MatrixEngine::new("C09"), if q { 20_000 } else { 500_000 }, "all"));
-                v.push(jobb(sched_engine("tok8", "C09", 24), if q { 50_000 } else { 1_500_000 }, "all"));
+                v.push(job(MatrixEngine::new("C09"), if q { 20_000 } else { 2_000_000 }, "all"));
+                v.push(jobb(sched_engine("tok8", "C09", 24), if q { 50_000 } else { 6_000_000 }, "all"));
                 // payloads without drop glue; with interior mutability the moved-out value must be the current one
-                v.push(jobb(sched_engine("plain8", "C09", 24), if q { 15_000 } else { 400_000 }, "all"));
-                v.push(jobb(sched_engine("bump8", "C09", 24), if q { 30_000 } else { 800_000 }, "all"));
-                v.push(jobb(sched_engine("tok8", "C09", 24), if q { 10_000 } else { 300_000 }, "nostd"));
+                v.push(jobb(sched_engine("plain8", "C09", 24), if q { 15_000 } else { 1_600_000 }, "all"));
+                v.push(jobb(sched_engine("bump8", "C09", 24), if q { 30_000 } else { 3_200_000 }, "all"));
+                v.push(jobb(sched_engine("tok8", "C09", 24), if q { 10_000 } else { 1_200_000 }, "nostd"));
                 v
             },
         ),
@@ -134,17 +134,17 @@ pub fn plan(prop: &str, tier: Tier) -> Option<Plan> {
             "exploration",
             "proptest-generated histories over ThinArc<H,T> and every fat / protected / raw / unique / arc-swap view of the same allocations (header Tok + 0..8 element Toks; header alignment <, =, > element alignment), including fat Arcs whose recorded length is wrong (true+1, true-1, 0, true+1000, usize::MAX) fed to into_thin, and with_arc_mut callbacks that mutate, replace by a fresh Arc, swap with an existing one, or panic before/after replacing. After every step every slot is read element by element and compared (values, identities, addresses, recorded length, count, heap_ptr) with the model. Non-trivial: a thin and a fat/protected handle to one allocation of length >=2 compared element-wise, or an into_thin with a wrong recorded length, or a with_arc_mut that replaced the Arc.".into(),
             vec!["element/header types are Tok witnesses; ZST elements are refused by the constructors (C06)".into()],
-            thin_jobs("C10", if q { 40 } else { 128 }, if q { 8000 } else { 150_000 }, both),
+            thin_jobs("C10", if q { 40 } else { 128 }, if q { 8000 } else { 450_000 }, both),
         ),
         "C05" => (
             "exploration",
             "proptest-generated points of a static matrix: 8 header shapes x 12 element shapes (size 0..64, alignment 1..64, incl. zero-sized, padded and over-aligned) x length in {0,1,2,3,4,5,7,8,9,15,16,17,31,40} x constructor (new, From<T>, From<Box>, Default, UniqueArc::new, new_uninit+write, from_header_and_iter/vec/slice, from_header_and_uninit_slice, ThinArc forms, From<Vec>/&[T], collect exact/inexact, new_uninit_slice) x extra clones x release path (drop as Arc / OffsetArc / ArcUnion first / second / UniqueArc, after from_raw, after a dyn cast, after unsizing, after header erasure, try_unwrap, into_inner, RefCnt). Observed oracle: heap_ptr = block start, block alignment >= max(8, align_of_val), value address aligned, value behind the count word and inside the block, red zones intact, dealloc layout == alloc layout (checked by the tracking allocator), exactly one free, nothing left. Non-trivial: a header or element that is over-aligned (>8), zero-sized or padded, released through a path other than dropping the constructing handle.".into(),
             vec!["8 x 12 sampled shapes rather than every size 0..64 x alignment 1..64".into(), "overflow-adjacent lengths (usize::MAX, usize::MAX/size +- k, isize::MAX/size +- k, 2^40) for new_uninit_slice, from_header_and_uninit_slice and iterators claiming the length run in child processes: the outcome must be a refusal panic or the allocation-error abort, never a returned handle in a block shorter than needed (the tracking allocator refuses requests above 2^36 bytes)".into()],
             vec![
-                job(MatrixEngine::new("C05"), if q { 60_000 } else { 2_000_000 }, "all"),
-                job(MatrixEngine::new("C05"), if q { 20_000 } else { 600_000 }, "nostd"),
-                job(eng::ctor::OverflowEngine, if q { 320 } else { 6000 }, "all"),
-                job(eng::ctor::OverflowEngine, if q { 160 } else { 3000 }, "nostd"),
+                job(MatrixEngine::new("C05"), if q { 60_000 } else { 40_000_000 }, "all"),
+                job(MatrixEngine::new("C05"), if q { 20_000 } else { 12_000_000 }, "nostd"),
+                job(eng::ctor::OverflowEngine, if q { 320 } else { 120_000 }, "all"),
+                job(eng::ctor::OverflowEngine, if q { 160 } else { 60_000 }, "nostd"),
             ],
         ),
         "C11" => (
@@ -152,9 +152,9 @@ pub fn plan(prop: &str, tier: Tier) -> Option<Plan> {
             "(a) matrix: payload shape x handle kind x into/from pairing (into_raw/from_raw, as_ptr, from_raw_slice, into_raw_offset/from_raw_offset, ThinArc::into_raw/from_raw/ptr/heap_ptr, ArcBorrow::from_ptr, cast to *const dyn then from_raw, unsize coercion, arc-swap RefCnt) with clones and moves in between: as_ptr == Deref address == into_raw, heap_ptr == allocator block start, the round trip recovers the same block, contents and count, every handle type is one word (two for slice/dyn) with the Option niche, OffsetArc/ArcBorrow bit pattern == value address; (b) histories ('pointers' weight table) checking address stability across every conversion, clone and move. Non-trivial: over-aligned / zero-sized / padded / unsized payload with a clone or a different release path between into and from; in histories a raw round trip on an allocation that had >=3 handle kinds.".into(),
             vec!["ThinArc::into_raw/as_ptr are the block start by design (opaque c_void); the Deref-address clause is checked on the fat view".into()],
             {
-                let mut v = vec![job(MatrixEngine::new("C11"), if q { 50_000 } else { 1_500_000 }, "all"), job(MatrixEngine::new("C11"), if q { 15_000 } else { 400_000 }, "nostd")];
-                v.extend(sized_jobs("C11", if q { 40 } else { 128 }, if q { 3000 } else { 60_000 }, both));
-                v.extend(thin_jobs("C11", if q { 40 } else { 128 }, if q { 2000 } else { 40_000 }, both));
+                let mut v = vec![job(MatrixEngine::new("C11"), if q { 50_000 } else { 12_000_000 }, "all"), job(MatrixEngine::new("C11"), if q { 15_000 } else { 3_200_000 }, "nostd")];
+                v.extend(sized_jobs("C11", if q { 40 } else { 128 }, if q { 3000 } else { 480_000 }, both));
+                v.extend(thin_jobs("C11", if q { 40 } else { 128 }, if q { 2000 } else { 320_000 }, both));
                 v
             },
         ),
@@ -163,8 +163,8 @@ pub fn plan(prop: &str, tier: Tier) -> Option<Plan> {
             "(a) matrix: every ordered pair (A,B) of the 8 x 12 shapes, both constructors, histories of <=24 ops (clone union, drop union, as_first/as_second().clone_arc(), drop plain Arcs, compare, ptr_eq, move) with after every op: is_first/is_second/as_first/as_second/borrow agree with the constructor, borrow address == the original Arc::as_ptr with the low bit clear, ArcUnion::strong_count == owners, plain Arcs to both allocations intact; unions of different variants never ==; one word + Option niche; right layout on the final free (tracking allocator); (b) sized-world histories with ArcUnion<P,Alt> / ArcUnion<Alt,P> handles among all other kinds (the right Tok type's destructor runs: the Tok magic is per type). Non-trivial: second variant, or A and B of equal layout, or byte-aligned / zero-sized payload, with >=1 union clone and a union as the last owner.".into(),
             vec!["shapes are sampled".into()],
             {
-                let mut v = vec![job(MatrixEngine::new("C12"), if q { 40_000 } else { 1_000_000 }, "all"), job(MatrixEngine::new("C12"), if q { 10_000 } else { 300_000 }, "nostd")];
-                v.extend(sized_jobs("C12", if q { 40 } else { 128 }, if q { 3000 } else { 60_000 }, both));
+                let mut v = vec![job(MatrixEngine::new("C12"), if q { 40_000 } else { 15_000_000 }, "all"), job(MatrixEngine::new("C12"), if q { 10_000 } else { 4_500_000 }, "nostd")];
+                v.extend(sized_jobs("C12", if q { 40 } else { 128 }, if q { 3000 } else { 900_000 }, both));
                 v
             },
         ),
@@ -175,8 +175,8 @@ pub fn plan(prop: &str, tier: Tier) -> Option<Plan> {
             vec![
                 job(eng::c16::C16Engine { fixed_grid: true }, 0, "all"),
                 job(eng::c16::C16Engine { fixed_grid: true }, 0, "nostd"),
-                job(eng::c16::C16Engine { fixed_grid: false }, if q { 320 } else { 4000 }, "all"),
-                job(eng::c16::C16Engine { fixed_grid: false }, if q { 320 } else { 4000 }, "nostd"),
+                job(eng::c16::C16Engine { fixed_grid: false }, if q { 320 } else { 16_000 }, "all"),
+                job(eng::c16::C16Engine { fixed_grid: false }, if q { 320 } else { 16_000 }, "nostd"),
             ],
         ),
         "C14" => (
@@ -189,7 +189,7 @@ pub fn plan(prop: &str, tier: Tier) -> Option<Plan> {
                     v.push(jobb(e, 0, "all"));
                 }
                 for e in eng::cmp::engines(false) {
-                    v.push(jobb(e, if q { 20_000 } else { 700_000 }, "all"));
+                    v.push(jobb(e, if q { 20_000 } else { 7_000_000 }, "all"));
                 }
                 v
             },
@@ -199,7 +199,7 @@ pub fn plan(prop: &str, tier: Tier) -> Option<Plan> {
             "exploration",
             "proptest-generated values of a recursive Val type (30 variants driving every Serializer entry point: all integer widths incl. 128-bit, floats by bit pattern, char, str, bytes, none/some, unit, unit/newtype/tuple struct, seq, tuple, map, struct, the four enum variant forms; depth <=4, width <=6). (a) A recording serializer logs every call with its arguments and fails at its k-th call (k = every call when <=12 calls, else 6 generated/boundary points, plus the fault-free run): the call log and the result of serialising Arc<Val> and UniqueArc<Val> must equal those of serialising the Val. (b) A recording / failing deserializer over the Val: Arc::<Val>::deserialize and UniqueArc::<Val>::deserialize versus Val::deserialize on identical deserializers: same calls, both Ok with equal values and the Arc is a sole owner living in a block allocated during the call, or both Err with the same error and nothing allocated during the call survives; after dropping all results the set of live tracked blocks is unchanged. (c) Arc<u64>, Arc<String>, Arc<Vec<u32>>, Arc/UniqueArc<(u8,String)> through serde's own in-memory value deserialisers, incl. type errors and a too-short sequence. Non-trivial: value of depth >=2, or a fault injected strictly inside the call.".into(),
             vec!["serde feature on (default configuration)".into(), "the recording serializer/deserializer are the harness's own".into()],
-            vec![job(eng::serde_eng::SerdeEngine, if q { 30_000 } else { 1_000_000 }, "all")],
+            vec![job(eng::serde_eng::SerdeEngine, if q { 30_000 } else { 12_000_000 }, "all")],
         ),
         "C15" => (
             "exploration",
@@ -209,7 +209,7 @@ pub fn plan(prop: &str, tier: Tier) -> Option<Plan> {
                 let mut v = vec![];
                 for fl in both {
                     for e in eng::uninit::engines() {
-                        v.push(jobb(e, if q { 6000 } else { 150_000 }, fl));
+                        v.push(jobb(e, if q { 6000 } else { 9_000_000 }, fl));
                     }
                 }
                 v
@@ -223,7 +223,7 @@ pub fn plan(prop: &str, tier: Tier) -> Option<Plan> {
                 let mut v = vec![];
                 for fl in both {
                     for (e, w) in eng::ctor::ctor_engines() {
-                        v.push(jobb(e, w * if q { 1500 } else { 40_000 }, fl));
+                        v.push(jobb(e, w * if q { 1500 } else { 600_000 }, fl));
                     }
                 }
                 v
@@ -237,7 +237,7 @@ pub fn plan(prop: &str, tier: Tier) -> Option<Plan> {
                 let mut v = vec![];
                 for fl in both {
                     for (e, w) in eng::ctor::fault_engines() {
-                        v.push(jobb(e, w * if q { 3000 } else { 70_000 }, fl));
+                        v.push(jobb(e, w * if q { 3000 } else { 840_000 }, fl));
                     }
                     v.push(job(eng::ctor::AllocFailEngine, 0, fl));
                 }
